@@ -38,6 +38,14 @@ def obligations(tier, ctx):
                 real=f"H.sched_real({kt!r}, {gl}, T)",
                 backend="P", timeout=120 if n < 3 else 240, family="schedule",
             ))
+    # the same filter with a progress callback installed (progress with the right / a foreign token in the stream)
+    cbk = [0, 2, 5, 6] if tier == "quick" else [0, 1, 2, 3, 4, 5, 6, 7]
+    for n in (1, 2):
+        for kt in itertools.product(cbk, repeat=n):
+            gl = "[" + ", ".join(f"g{i}" for i in range(n)) + "]"
+            obs.append(Ob(name="cb_" + "".join(map(str, kt)), params=[(f"g{i}", "int") for i in range(n)] + [("T", "int")],
+                          pre=gaps_pre(n) + [f"1 <= T <= {T_MAX}"], call=f"H.sched_cb({kt!r}, {gl}, T)", real=f"H.sched_cb_real({kt!r}, {gl}, T)",
+                          backend="P", timeout=180, family="schedule with progress callback"))
     # generated-id (uuid) path
     for kt in [(0,), (2, 0), (3, 1)]:
         n = len(kt)
